@@ -26,6 +26,15 @@ import (
 
 var root = "/verif"
 
+// repoPrefix is the path prefix of library source files in stack traces (/repo/, or the scratch
+// checkout named by VERIF_REPO_DIR when a seeded change is evaluated from a private copy).
+var repoPrefix = func() string {
+	if d := os.Getenv("VERIF_REPO_DIR"); d != "" {
+		return strings.TrimRight(d, "/") + "/"
+	}
+	return "/repo/"
+}()
+
 func main() {
 	if len(os.Args) < 2 {
 		usage()
@@ -444,7 +453,7 @@ func cmdCheck(args []string) int {
 						so.race = &harness.Replay{Property: id, Kind: "none", Clause: "data-race", Message: raceSummary(report), Program: json.RawMessage("null")}
 					}
 				}
-				if so.race == nil && st == nil && res.exit != 0 && !res.timedOut && strings.Contains(res.out, "/repo/") &&
+				if so.race == nil && st == nil && res.exit != 0 && !res.timedOut && strings.Contains(res.out, repoPrefix) &&
 					(strings.Contains(res.out, "panic:") || strings.Contains(res.out, "fatal error:")) {
 					// the process died from a panic/fatal error outside the goroutine running
 					// the case (e.g. in the background writer): attribute it to the running case
@@ -676,11 +685,11 @@ func crashSummary(out string) string {
 			msg = t
 			continue
 		}
-		if msg != "" && strings.HasPrefix(t, "/repo/") {
+		if msg != "" && strings.HasPrefix(t, repoPrefix) {
 			if i := strings.Index(t, " +0x"); i > 0 {
 				t = t[:i]
 			}
-			frames = append(frames, strings.TrimPrefix(t, "/repo/"))
+			frames = append(frames, strings.TrimPrefix(t, repoPrefix))
 			if len(frames) >= 4 {
 				break
 			}
